@@ -9,6 +9,9 @@ EVALS = Counter()
 class ContractBroken(Exception):
     pass
 
+def _lkl(s):
+    return ''.join(c.lower() if len(c.lower()) == 1 else c for c in s)
+
 def _join(parsing):
     return ''.join(seg for seg, _ in parsing)
 
@@ -64,7 +67,7 @@ def install():
     def website_lossless(section, result):
         EVALS['detect_website'] += 1
         parsing, url, host, prefix = result
-        return url is None or (_join(parsing).lower() == section[0].lower() and all(seg != '' for seg, _ in parsing))
+        return url is None or (_lkl(_join(parsing)) == _lkl(section[0]) or _join(parsing).lower() == section[0].lower()) and all(seg != '' for seg, _ in parsing)
     wd.detect_website = icontract.ensure(website_lossless, error=lambda section, result: ContractBroken(f'detect_website is lossy on {section!r}: {result!r}'))(wd.detect_website)
 
     def multiword_partition(alpha_string, result):
